@@ -1121,6 +1121,9 @@ Error Assembler::_emit(InstId inst_id, const Operand_& o0, const Operand_& o1, c
         // Prefer a single MOVN/MOVZ instruction over a logical instruction.
         multiple_op_count = encode_mov_sequence_64(multiple_op_data, imm_value, o0.id() & 31, x);
         if (multiple_op_count == 1 && !o0.as<Gp>().is_sp()) {
+          if (!check_gp_id(o0, kZR))
+            goto InvalidPhysId;
+
           opcode.reset(multiple_op_data[0]);
           goto EmitOp;
         }
